@@ -315,7 +315,7 @@ package raft
 //@   trusted
 //@   requires [C04.append-contiguous] e.index == s.lastLogIndex + 1
 //@   requires s.log != nil
-//@   modifies s.lastLogIndex, s.lastLogTerm, s.gterm, s.gtyp, all(s.log), segment.n, segment.size, segment.synced, segment.next, segment.prev, segment.prevIndex, segment.file, Log.gin, File.gdur, File.Data, elems(uint8)
+//@   modifies s.lastLogIndex, s.lastLogTerm, s.gterm, s.gtyp, all(s.log), log.segment.n, log.segment.size, log.segment.synced, log.segment.next, log.segment.prev, log.segment.prevIndex, log.segment.file, log.Log.gin, mmap.File.gdur, mmap.File.Data, elems(uint8)
 //@   maypanic OpError
 //@   ensures s.lastLogIndex == e.index && s.lastLogTerm == e.term && LogLast(s.log) == e.index
 //@   ensures s.gterm[e.index] == e.term && s.gtyp[e.index] == e.typ
@@ -324,7 +324,7 @@ package raft
 //@ func (*storage).removeGTE
 //@   trusted
 //@   requires [C02.truncate-above-snapshot] s.log != nil && LogPrev(s.log) < index && index <= s.lastLogIndex
-//@   modifies s.lastLogIndex, s.lastLogTerm, s.flushed, all(s.log), segment.n, segment.size, segment.synced, segment.next, segment.prev, segment.prevIndex, segment.file, Log.gin, File.gdur, File.Data, elems(uint8)
+//@   modifies s.lastLogIndex, s.lastLogTerm, s.flushed, all(s.log), log.segment.n, log.segment.size, log.segment.synced, log.segment.next, log.segment.prev, log.segment.prevIndex, log.segment.file, log.Log.gin, mmap.File.gdur, mmap.File.Data, elems(uint8)
 //@   maypanic OpError
 //@   ensures s.lastLogIndex == index - 1 && s.lastLogTerm == prevTerm && LogLast(s.log) == index - 1 && s.flushed == index - 1
 
